@@ -1,0 +1,28 @@
+//go:build verif
+
+package config
+
+// Contracts for the verification framework in /verif (comment-only file,
+// compiled only with -tags verif; see /verif/DESIGN.md).
+
+//@ import x509 "crypto/x509"
+
+//@ # ---------------------------------------------------------------- C02: CA key algorithm names in handler configuration
+//@ # x509: UnknownPublicKeyAlgorithm 0, RSA 1, DSA 2, ECDSA 3, Ed25519 4 (pinned from the standard library's declaration order)
+//@ table publicKeyAlgoName: forall(k#string, true, (k in dom(publicKeyAlgoName)) <==> (k == "default" || k == "unknown" || k == "rsa" || k == "dsa" || k == "ecdsa" || k == "ed25519")) &&
+//@   publicKeyAlgoName["default"] == 0 && publicKeyAlgoName["unknown"] == 0 && publicKeyAlgoName["rsa"] == 1 && publicKeyAlgoName["dsa"] == 2 &&
+//@   publicKeyAlgoName["ecdsa"] == 3 && publicKeyAlgoName["ed25519"] == 4
+
+//@ ghost func algoType() reflect.Type = reflTypeOf(typeof(iface(zero(x509.PublicKeyAlgorithm))))
+//@ # the hook: strings destined for a PublicKeyAlgorithm are looked up by lower-cased name, else parsed as a number; everything else passes through
+//@ func StringToX509PublicKeyAlgo$1(f, t, data)
+//@   requires f != nil
+//@   requires kindOf(f) == 24 ==> typeof(data) == string
+//@   let u0 = old(calls(strconv.ParseUint))
+//@   ensures [other-conversions-pass-through] (kindOf(f) != 24 || t != algoType()) ==> (result0 == data && result1 == nil && calls(strconv.ParseUint) == u0)
+//@   ensures [algorithm-by-name-in-any-case] (kindOf(f) == 24 && t == algoType() && (lowerOf(data.(string)) in dom(publicKeyAlgoName))) ==>
+//@     (result1 == nil && result0 == iface(publicKeyAlgoName[lowerOf(data.(string))]) && calls(strconv.ParseUint) == u0)
+//@   ensures [algorithm-by-number] (kindOf(f) == 24 && t == algoType() && !(lowerOf(data.(string)) in dom(publicKeyAlgoName))) ==>
+//@     (calls(strconv.ParseUint) == u0 + 1 && arg(strconv.ParseUint, u0, 0) == data.(string) && arg(strconv.ParseUint, u0, 1) == 10 &&
+//@      result1 == ret(strconv.ParseUint, u0, 1) && (result1 != nil ==> result0 == nil) &&
+//@      (result1 == nil ==> (typeof(result0) == x509.PublicKeyAlgorithm && pl(result0) == ret(strconv.ParseUint, u0, 0))))
